@@ -154,6 +154,68 @@ def worker(kp, job):
     return {'records': records}
 
 
+def long_worker(kp, job):
+    """a LONG score (some 300 measures): ranges that end at the last measure, single measures near the end, and the
+    rejections, against the lines of the full export"""
+    seed, idx = job
+    rng = random.Random(seed * 982451653 + idx)
+    nm = rng.randint(262, 330)
+    lines = ['**kern\t**kern', '*clefG2\t*clefF4', '*M4/4\t*M4/4']
+    notes = ['4c', '4d', '8e', '2f', '4g', '4a', '4b', '4cc']
+    for m in range(1, nm + 1):
+        lines.append(f'={m}\t={m}')
+        for _ in range(rng.randint(1, 3)):
+            lines.append(rng.choice(notes) + '\t' + rng.choice(notes))
+    lines += ['==\t==', '*-\t*-']
+    text = '\n'.join(lines) + '\n'
+    viol = []
+    w = {'text_lines': len(lines), 'measures_written': nm, 'first_lines': lines[:6]}
+    try:
+        doc, errs = kp.loads(text)
+        M = doc.measures_count()
+        full = kp.dumps(doc).split('\n')
+        if list(doc) != list(range(1, M + 1)):
+            viol.append(('iteration', f'long score: list(doc) is not 1..{M}', w))
+        pairs = [(1, M), (M, M), (M - 1, M), (rng.randint(2, M - 2), M), (256, 257), (257, 257), (rng.randint(2, 200), rng.randint(201, M - 1)), (M - 1, M - 1)]
+        for a, b_ in pairs:
+            try:
+                out = kp.dumps(doc, from_measure=a, to_measure=b_).split('\n')
+            except Exception as e:
+                viol.append(('range-raises', f'ragged-signatures=False: long score of {M} measures: from_measure={a} to_measure={b_} raised {type(e).__name__}', dict(w, pair=[a, b_])))
+                continue
+            bars = [i for i, l in enumerate(full) if l.startswith('=')]
+            if len(bars) != M:
+                viol.append(('iteration', f'long score: measures_count() = {M}, the full export has {len(bars)} barline lines', w))
+                break
+            obars = [i for i, l in enumerate(out) if l.startswith('=')]
+            if not obars:
+                viol.append(('range', f'long score of {M} measures: the export of {a}..{b_} holds no barline', dict(w, pair=[a, b_])))
+                continue
+            i0 = bars[a - 1]
+            want = full[i0:] if b_ >= M else full[i0:bars[b_] + 1]
+            got = out[obars[0]:]
+            got = [l for l in got if l != '']
+            want = [l for l in want if l != '']
+            if b_ < M:
+                got = got[:-1] if got and set(got[-1].split('\t')) == {'*-'} else got
+            if got != want:
+                viol.append(('range', f'long score of {M} measures: the export of {a}..{b_} does not end with the lines of these measures '
+                                      f'({len(got)} lines, expected {len(want)})', dict(w, pair=[a, b_])))
+        for o2 in ({'to_measure': M + 1}, {'from_measure': M, 'to_measure': M - 1}, {'from_measure': 300, 'to_measure': 256}):
+            try:
+                kp.dumps(doc, **o2)
+                viol.append(('rejected', f'long score of {M} measures: {o2} was accepted instead of ValueError', dict(w, options=o2)))
+            except ValueError:
+                pass
+            except Exception as e:
+                viol.append(('rejected', f'long score of {M} measures: {o2} raised {type(e).__name__}, not ValueError', dict(w, options=o2)))
+    except BaseException as e:
+        if e.__class__.__name__ == 'JobTimeout':
+            raise
+        viol.append(('range-raises', f'ragged-signatures=False: long score ({len(lines)} lines): {type(e).__name__}', w))
+    return {'records': [engine.rec('long', viol=viol[:3], kind='long-score', key=('long', idx, len(lines)))]}
+
+
 def run(chk):
     b = core.standard_build(chk)
     model = core.Model() if b.modelrun_ok else None
@@ -162,8 +224,9 @@ def run(chk):
     chk.rule = ('generated **kern documents (two thirds kern-only, one third mixed and exported with spine_types=[**kern]; with / '
                 'without opening barline, pickup, final barline; splits, comments; every 10th with signatures in some spines only) x '
                 'EVERY pair 1 <= a <= b <= M, the partition of the full export by the single-measure exports, iteration (also nested, zipped and interleaved), and five '
-                'out-of-range pairs; non-trivial = distinct (text, a, b)')
+                'out-of-range pairs; plus scores of 260-330 measures (ranges ending at the last measure, around measure 256, rejections) against the full export; non-trivial = distinct (text, a, b)')
     results = engine.pmap(worker, [(chk.seed, i) for i in range(n)])
+    results += engine.pmap(long_worker, [(chk.seed, i) for i in range(2 if not full else 6)], nproc=6)
     engine.settle(chk, results, model)
     chk.disagreements_checked = len(chk.broken)
 
